@@ -98,7 +98,7 @@ Section Ops.
     match arg, o_ty o with
     | None, TFunc None _ => finish (if o_is_help o then r else log_call r (o_fid o) None)
     | None, _ => Panic (s2l "reflect: Call with too few input arguments")
-    | Some _, TFunc None _ => Panic (s2l "reflect: In of non-func type or index out of range")
+    | Some _, TFunc None _ => finish (if o_is_help o then r else log_call r (o_fid o) None)
     | Some v, TFunc (Some k) _ =>
       bind (convert orc (o_base o) v (TScalar k) (zero_kind k)) (fun cv =>
         match cv with
@@ -123,7 +123,7 @@ Section Ops.
         | [] => Ok None
         | cs =>
           match arg with
-          | None => Panic (s2l "nil pointer dereference (choices with nil value)")
+          | None => Ok None        (* choices restrict the argument; none given *)
           | Some v =>
             if existsb (str_eqb v) cs then Ok None
             else Ok (Some (EFlags ErrInvalidChoice
